@@ -141,6 +141,9 @@ def h_intersection(h):
 POLYGONS = {
     "pentagon": [[2.0, 1.0], [4.0, 1.5], [4.5, 4.0], [3.0, 5.0], [1.5, 3.0]],
     "quad": [[1.0, 2.0], [3.0, 0.5], [5.0, 2.5], [2.5, 4.5]],
+    # the closing edge (last vertex -> first vertex) is the TOP of the polygon and (before the symbolic perturbation)
+    # horizontal: first and last vertex may share a coordinate exactly, as on rectangles and clipped contours
+    "flat_top": [[1.0, 4.0], [1.5, 1.0], [4.0, 0.5], [4.5, 4.0]],
 }
 
 
@@ -288,11 +291,12 @@ def obligations(tier):
                 continue
             yield ("intersection", h_intersection, {"a": a, "b": b, "scale": sc}, {"max_paths": 20000})
     yield ("intersection", h_intersection, {"a": "vee", "b": "seg_anti", "scale": 1.0, "lists": True}, {})
-    for poly in (("pentagon",) if tier == "quick" else ("pentagon", "quad")):
+    for poly in (("pentagon", "flat_top") if tier == "quick" else ("pentagon", "quad", "flat_top")):
         for swap in (False, True):
             pr = {"pentagon": {False: [2.6, 3.5, 0.5, 4.25], True: [2.0, 3.5, 6.0]},
-                  "quad": {False: [2.0, 4.0, 6.0], True: [1.2, 3.2]}}[poly][swap]
-            for sc in ((1.0, 1e-4) if tier == "quick" else scales):
+                  "quad": {False: [2.0, 4.0, 6.0], True: [1.2, 3.2]},
+                  "flat_top": {False: [2.5, 3.0, 0.5, 4.25], True: [2.0, 3.0, 6.0]}}[poly][swap]
+            for sc in (((1.0, 1e-4) if poly == "pentagon" else (1.0,)) if tier == "quick" else scales):
                 yield ("design_list", h_design_list, {"polygon": poly, "swap": swap, "probes": pr, "scale": sc},
                        {"max_paths": 20000})
                 yield ("design_any_abscissa", h_design_any_abscissa, {"polygon": poly, "swap": swap, "scale": sc},
